@@ -16,9 +16,6 @@
 
 enum { OP_RFC, OP_TLDCHECK, OP_ALLOW, OP_SETUP, OP_EMAIL, OP_ERRSTR, OP_REINIT, OP_MAX };
 
-#ifdef HAVE_IDNKIT
-#include "idnkit_res.h"
-#endif
 
 static int expect_accept(int rc, int allow)
 {
@@ -72,6 +69,9 @@ void harness(void)
             VF_ASSERT(cb_calls == before + 1, "C13: one callback per validation");
             VF_ASSERT(cb_last_mode == confirmed, "C13: the mode confirmed by the last successful eav_setup is applied");
             VF_ASSERT(cb_last_tld == e.tld_check, "C13: the current tld_check is applied");
+#ifdef HAVE_IDNKIT
+            VF_ASSERT(ik_live == (confirmed == EAV_RFC_6531 ? 1 : 0), "C18: a context is held exactly while mode 6531 is the confirmed mode");
+#endif
             /* a fresh object with the same confirmed mode and current settings */
             eav_t f;
             cb_garbage(&f, sizeof f);
@@ -121,6 +121,8 @@ void harness(void)
 #ifdef HAVE_IDNKIT
     VF_ASSERT(ik_live == 0, "C18: every IDN context created by eav_setup has been destroyed exactly once");
     VF_ASSERT(!ik_bad_destroy, "C18: never a destroy of a dead or foreign context");
+    VF_ASSERT(!cb_bad_ctx, "C18: mode 6531 validations run with the live context and the configured actions");
+    VF_COVER(ik_created >= 2, "context-recreated");
 #endif
     VF_FORGET(cb_last_result); VF_FORGET(cb_last_email);
     VF_COVER(emails >= 2, "two-validations");
